@@ -122,7 +122,7 @@ def check(case, ctx):
                 why = "null key" if k is None else "group without selected row"
                 fails.append({"monitor": "c07.neutral", "sig": sig, "detail": f"{op}: row {i} ({why}) carries {v!r} (dtype {t.dtype})"})
                 break
-        elif not ops.same_value(v, rmap[k], tol) and not (cmp.is_null(rmap[k]) and ops.is_neutral(v, op, t.dtype)):
+        elif not ops.same_value(v, rmap[k], tol, nullzero=op in ("var", "std")) and not (cmp.is_null(rmap[k]) and ops.is_neutral(v, op, t.dtype)):
             fails.append({"monitor": "c07.value", "sig": sig, "detail": f"{op}: row {i} key {k!r}: transform gives {v!r}, the group's result is {rmap[k]!r}"})
             break
     return fails
